@@ -248,6 +248,33 @@ Theorem C19_parse_region_beyond_end : forall s t c oa b L,
 Proof. exact parse_region_beyond_end. Qed.
 Print Assumptions C19_parse_region_beyond_end.
 
+(** parse_region on a formatted region: accepted exactly within the chromosome *)
+Theorem C19_parse_region_format_roundtrip : forall name s e t L,
+  name_ok_b name = true -> lookup name t = Some L -> 0 <= s <= e -> e <= L ->
+  parse_region (name ++ c_colon :: dec s ++ c_hyphen :: dec e) (Some t) = Some (name, s, e).
+Proof. exact parse_region_format_roundtrip. Qed.
+Print Assumptions C19_parse_region_format_roundtrip.
+
+Theorem C19_parse_region_format_beyond : forall name s e t L,
+  name_ok_b name = true -> lookup name t = Some L -> 0 <= s <= e -> L < e ->
+  parse_region (name ++ c_colon :: dec s ++ c_hyphen :: dec e) (Some t) = None.
+Proof. exact parse_region_format_beyond. Qed.
+Print Assumptions C19_parse_region_format_beyond.
+
+Theorem C19_parse_region_format_unknown : forall name s e t,
+  name_ok_b name = true -> lookup name t = None -> 0 <= s <= e ->
+  parse_region (name ++ c_colon :: dec s ++ c_hyphen :: dec e) (Some t) = None.
+Proof. exact parse_region_format_unknown. Qed.
+Print Assumptions C19_parse_region_format_unknown.
+
+(** defaults: bare name = whole chromosome, open end = up to the length *)
+Theorem C19_parse_region_defaults : forall name t L s,
+  name_ok_b name = true -> lookup name t = Some L -> 0 <= s <= L ->
+  parse_region name (Some t) = Some (name, 0, L) /\
+  parse_region (name ++ c_colon :: dec s ++ [c_hyphen]) (Some t) = Some (name, s, L).
+Proof. exact parse_region_defaults. Qed.
+Print Assumptions C19_parse_region_defaults.
+
 (** ---- parse_cooler_uri.  [no_dcolon s]: no two adjacent colons in s; [last_notcolon f]: f does not end in ':' *)
 Theorem C19_uri_plain : forall f, no_dcolon f = true -> parse_cooler_uri f = Some (f, [c_slash]).
 Proof. exact uri_plain. Qed.
